@@ -74,7 +74,14 @@ func (fst *FSTree) buildFilePath(key string, checkKeyLength bool) (string, error
 	}
 	// build filepath
 	dstPath := filepath.Join(fst.basePath, key) // Join also calls Clean()
-	if !strings.HasPrefix(dstPath, fst.basePath) {
+	// The path must be the base path itself or lie below it. Comparing with
+	// the separator appended keeps siblings that merely share the base path
+	// as a name prefix (eg. "<base>-other") out of scope.
+	scopePrefix := fst.basePath
+	if !strings.HasSuffix(scopePrefix, string(filepath.Separator)) {
+		scopePrefix += string(filepath.Separator)
+	}
+	if dstPath != fst.basePath && !strings.HasPrefix(dstPath, scopePrefix) {
 		return "", fmt.Errorf("fstree: key integrity check failed, compiled path is %s", dstPath)
 	}
 	// return
